@@ -6,7 +6,7 @@ CONSTANTS
   Encs = {"pm", "zo", "bool"}
   NanCls = {"none", "first", "last", "two", "mid", "all"}
   Chunks = {2, 3, 4, 5, 6, 19}
-  Workers = {1, 2, 3}
+  Workers = {1, 2}
   RowCls = {"one", "two", "three"}
   Errs = {"none"}
   NRows = 3 Rotate = TRUE RotK = 2
